@@ -80,6 +80,9 @@ type Wrap struct {
 	// AfterGet, if set, is called after every point read returned (the caller is a goroutine of the system under test:
 	// blocking here is a descheduled reader that has its value in hand).
 	AfterGet func(key, val []byte, err error)
+	// EagerBegin begins the engine's batch when the caller begins its batch instead of at Commit (set on memkv, whose
+	// BeginBatchWrite takes the store mutex until Commit: an abandoned batch then wedges the store as it does in production)
+	EagerBegin bool
 	// BeforeInnerCommit, if set, is called after a batch's operations were added to the engine's batch and before that
 	// batch is committed. Must not be used on memkv, whose open batch holds the store mutex.
 	BeforeInnerCommit func(ops []BatchOp)
@@ -209,12 +212,19 @@ func (w *Wrap) DelCurrent(ctx context.Context, it storage.Iter) (err error) {
 // BeginBatchWrite implements storage.KvStorage. The inner batch is created only at Commit because
 // memkv takes its store mutex in BeginBatchWrite.
 func (w *Wrap) BeginBatchWrite() storage.BatchWrite {
-	return &wrapBatch{w: w}
+	b := &wrapBatch{w: w}
+	if w.EagerBegin {
+		// an engine may take a lock when a batch begins and hold it until Commit (memkv does): the engine's batch is
+		// begun when the caller begins it, so a batch the caller abandons keeps what the engine's batch keeps
+		b.eager = w.KvStorage.BeginBatchWrite()
+	}
+	return b
 }
 
 type wrapBatch struct {
-	w   *Wrap
-	ops []BatchOp
+	w     *Wrap
+	ops   []BatchOp
+	eager storage.BatchWrite
 }
 
 func cp(b []byte) []byte {
@@ -242,7 +252,11 @@ func (b *wrapBatch) DelCurrent(it storage.Iter) {
 }
 
 func (b *wrapBatch) inner() storage.BatchWrite {
-	ib := b.w.KvStorage.BeginBatchWrite()
+	ib := b.eager
+	if ib == nil {
+		ib = b.w.KvStorage.BeginBatchWrite()
+	}
+	b.eager = nil
 	for _, op := range b.ops {
 		if b.w.NoTTL {
 			op.TTL = 0 // an engine without native TTL ignores the argument
@@ -291,6 +305,11 @@ func (b *wrapBatch) Commit(ctx context.Context) error {
 		ret = storage.NewErrUncertainResult(errors.New("injected unknown outcome"))
 	case UncertainNotApplied:
 		ret = storage.NewErrUncertainResult(errors.New("injected unknown outcome"))
+	}
+	if b.eager != nil {
+		// the injected outcome keeps the operations from the engine; the caller did commit, so the engine's batch ends too
+		b.eager.Commit(ctx)
+		b.eager = nil
 	}
 	if b.w.AfterCommit != nil {
 		b.w.AfterCommit(info, ret)
